@@ -1313,6 +1313,70 @@ pub fn run(cx: &Ctx, case: &Case, out: &mut Out, mode: Mode) {
                 }
                 out.obs(&[]);
             }
+            "parse_bytes" => {
+                // the real nom parser of the state file, instantiated on numbers
+                let bytes = op.args[0].b().to_vec();
+                match parse_several_requests::<u64>(&bytes) {
+                    Ok((rest, vals)) => {
+                        let mut o = vec![tn(vals.len() as i128)];
+                        o.extend(vals.iter().map(|v| tn(*v as i128)));
+                        o.push(tn(rest.len() as i128));
+                        out.obs(&o);
+                    }
+                    Err(_) => out.obs(&[ts("err")]),
+                }
+            }
+            "framing" => {
+                // the state file of the real state, cut at every point: the parser must deliver exactly
+                // the complete records before the cut and leave the cut record unparsed
+                out.obs(&[]);
+                if mode == Mode::C05 {
+                    let mut f = tempfile();
+                    let n = s.write_requests_to_file(&mut f).unwrap_or(usize::MAX);
+                    f.seek(SeekFrom::Start(0)).unwrap();
+                    let mut bytes = vec![];
+                    f.read_to_end(&mut bytes).unwrap();
+                    let want: Vec<WorkerRequest> = s.produce_initial_state().requests;
+                    let bounds: Vec<usize> = bytes.iter().enumerate().filter(|(_, b)| **b == 0).map(|(i, _)| i + 1).collect();
+                    if bounds.len() != n || want.len() != n {
+                        out.viol("framing-count", &format!("{} NUL-terminated records in the file, {} written, {} generated", bounds.len(), n, want.len()));
+                    }
+                    let len = bytes.len();
+                    let mut cuts: Vec<usize> = if len <= 4000 { (0..=len).collect() } else { (0..=len).step_by(len / 1500 + 1).collect() };
+                    for b in &bounds {
+                        for d in [0usize, 1, 2, 3] {
+                            if *b >= d {
+                                cuts.push(*b - d);
+                            }
+                            if *b + d <= len {
+                                cuts.push(*b + d);
+                            }
+                        }
+                    }
+                    cuts.push(len);
+                    let mut bad = 0;
+                    for t in cuts {
+                        let complete = bounds.iter().filter(|b| **b <= t).count();
+                        let consumed = bounds.iter().filter(|b| **b <= t).last().copied().unwrap_or(0);
+                        match parse_several_requests::<WorkerRequest>(&bytes[..t]) {
+                            Ok((rest, vals)) => {
+                                if vals.len() != complete || rest.len() != t - consumed || vals[..] != want[..complete.min(want.len())] {
+                                    bad += 1;
+                                    if bad == 1 {
+                                        out.viol("framing-truncation", &format!("state file of {len} bytes cut at {t}: parser delivered {} records (rest {} bytes), expected {complete} complete records (rest {})", vals.len(), rest.len(), t - consumed));
+                                    }
+                                }
+                            }
+                            Err(e) => {
+                                bad += 1;
+                                if bad == 1 {
+                                    out.viol("framing-truncation", &format!("state file cut at {t}: parser error {e:?}"));
+                                }
+                            }
+                        }
+                    }
+                }
+            }
             "replay" => {
                 let vs = replay_paths(&s);
                 let mut o = vec![];
